@@ -133,12 +133,36 @@ func (f *PacketFiller) Fill(packet gopacket.SerializeBuffer, r *scan.Request) (e
 		opt.FixLengths = true
 	}
 	if f.vpnMode {
-		return gopacket.SerializeLayers(packet, opt, ip, udp, gopacket.Payload(f.payload))
+		if err = gopacket.SerializeLayers(packet, opt, ip, udp, gopacket.Payload(f.payload)); err != nil {
+			return err
+		}
+		fixZeroChecksum(packet.Bytes(), ipHeaderLen)
+		return nil
 	}
 	eth := &layers.Ethernet{
 		SrcMAC:       r.SrcMAC,
 		DstMAC:       r.DstMAC,
 		EthernetType: layers.EthernetTypeIPv4,
 	}
-	return gopacket.SerializeLayers(packet, opt, eth, ip, udp, gopacket.Payload(f.payload))
+	if err = gopacket.SerializeLayers(packet, opt, eth, ip, udp, gopacket.Payload(f.payload)); err != nil {
+		return err
+	}
+	fixZeroChecksum(packet.Bytes(), ethHeaderLen+ipHeaderLen)
+	return nil
+}
+
+const (
+	ethHeaderLen = 14
+	ipHeaderLen  = 20
+	// offset of the checksum field in the UDP header
+	udpChecksumOffset = 6
+)
+
+// fixZeroChecksum transmits a computed UDP checksum of zero as all ones (RFC 768),
+// a zero checksum field means that the sender did not compute the checksum
+func fixZeroChecksum(data []byte, udpOffset int) {
+	i := udpOffset + udpChecksumOffset
+	if len(data) >= i+2 && data[i] == 0 && data[i+1] == 0 {
+		data[i], data[i+1] = 0xff, 0xff
+	}
 }
